@@ -14,7 +14,8 @@ Inductive c18case :=
 | CFlow (mech dir : N) (maxsz : Z) (hb : option (N * N)) (steps : list c18step)
         (imuts : list imut) (bmuts : list bmut) (cuts : list N) (fb_tick : option N)
 | CSessions (mech dir : N) (msg : list cfr)
-| CReflect (mech dir warm : N) (msg : list cfr).   (* the victim's own next record played back to it after `warm` exchanges *)
+| CReflect (mech dir warm : N) (msg : list cfr)
+| CEarly (mech : N) (msg : list cfr).   (* the first data record arrives together with / right behind the peer's READY *)   (* the victim's own next record played back to it after `warm` exchanges *)
 
 Definition kind_of (mech : N) : ckind := if mech =? 0 then KCurve else KNoise.
 
@@ -207,6 +208,10 @@ Definition c18_model (c : c18case) : obs :=
           end
       | _ => [[62; 1; 2 * warm; 0; 0; 0]]
       end
+  | CEarly mech msg =>
+      (* what the client hands to the application is determined by the bytes (engine chunk independence + the record
+         layer's chunk independence): exactly the one message, however the READY and the record were cut into reads *)
+      [63; 1; 1] :: map msg_row (map cfr_frame msg)
   end.
 
 Definition c18_mismatches (cases : list (N * c18case * obs)) : list N :=
